@@ -430,7 +430,13 @@ impl Acc {
             run.seen("abstract_states_at_quiescent_points", &s);
         }
         for s in self.samples.drain(..) {
-            run.sample(s);
+            // keep room for every mode: DFS samples fill at most 3 slots, walks up to 5, threads up to 7
+            let cap = match s["mode"].as_str() {
+                Some("dfs") => 3,
+                Some("random-walk") => 5,
+                _ => 7,
+            };
+            run.sample_upto(cap, s);
         }
     }
 }
@@ -1362,7 +1368,7 @@ pub fn main() {
                         totals.skipped.fetch_add(1, Ordering::SeqCst);
                         continue;
                     }
-                    dfs_one(run, &mut acc, &configs[i], cap, totals, i % 997 == 5);
+                    dfs_one(run, &mut acc, &configs[i], cap, totals, i % 97 == 40);
                 }
                 acc.flush(run);
                 {
